@@ -175,8 +175,11 @@ structure Measured where
   freshVisPpm : Nat    -- the same over VISIBLE heap nodes only (hidden repeat helpers excluded)
   deriving Repr, Inhabited
 
-def judgeCase (thr : Thresholds) (m : Measured) (incrError scratchError sameSexp : Bool) : Option String :=
+def judgeCase (thr : Thresholds) (m : Measured) (incrError scratchError sameSexp : Bool) (lexed : Nat := 1) : Option String :=
   if incrError || scratchError then some "document is not error-free"
+  -- the edit replaces a token, so at least one token must have been lexed: 0 means the
+  -- measurement interface (the `lexed_lookahead` log line) is gone, not that the parser is fast
+  else if lexed == 0 then some "no lexed_lookahead event was observed although a token was replaced (logger interface changed?)"
   else if !sameSexp then some "incremental tree differs from the from-scratch tree"
   else if m.lexedPpm > thr.lexed then some s!"lexed fraction {m.lexedPpm} ppm exceeds threshold {thr.lexed} ppm"
   else if m.bytesPpm > thr.bytes then some s!"fraction of bytes requested from the read callback {m.bytesPpm} ppm exceeds threshold {thr.bytes} ppm"
